@@ -119,7 +119,7 @@ example : expandPsg (psgFinish ([PsgItem.value 15 15 1, .loop, .value 15 15 1, .
 
 /-- PSG marks — with `C11_psg_frames` the full PSG clause modulo `SlideOK`, for EVERY definition
 `add_ins_psg` accepts (no size hypothesis any more): whenever the end of `add_ins_psg` (`psgEnd`:
-the range check of the loop position added by fix ba9074f, then the end / loop command) returns
+the range check of the loop position added by fix ff36345, then the end / loop command) returns
 bytes, the frame index at which the independent reader sees each sustain mark, and the frame
 index its loop command jumps to, equal the number of frames written before the mark
 (`refSus`/`refLoop` count frames with the written lengths; the last `|` wins), and the whole
@@ -146,7 +146,7 @@ example : itemsOk [.value 15 15 1, .loop, .value 15 15 1, .value 15 10 6, .susta
 loop position — the number of envelope bytes in front of the last loop mark — is above 255, it
 never throws for a definition whose written size (frames + sustain marks, an upper bound of the
 number of bytes) is below 256, and when it does not throw it emits `psgFinish` with a loop
-position that fits the byte.  Before ba9074f the position was narrowed to a byte silently
+position that fits the byte.  Before ff36345 the position was narrowed to a byte silently
 (`@1 psg (15 14)x130 | 3 2` compiled to the loop command `02 04`). -/
 theorem C11_psg_loop_checked {α} (A : Arith α) (hA : SlideOK A) (id : Nat) (items : List PsgItem)
     (hok : itemsOk items false = true) :
@@ -218,7 +218,7 @@ theorem C11_pitch_node {α} (A : Arith α) (ue ex : Bool) (size : Nat) (i t : α
 /-- the limit is sharp and is an error, not a silent wrap: a node whose iterations do not fit
 behind the `size` bytes already there (more than 256 nodes in all) makes `add_pitch_node` throw —
 `nodeOf` never returns more iterations than fit, and it throws nothing but `invalid_argument`
-(only in the compact form with extended pitch allowed), the too-long InputError and (fix 87e2b57)
+(only in the compact form with extended pitch allowed), the too-long InputError and (fix f788cbf)
 the too-steep InputError of `C11_pitch_step_checked`. -/
 theorem C11_pitch_node_limit {α} (A : Arith α) (ue ex : Bool) (size : Nat) (i t : α) (e : Option Int) :
     (∀ cs, nodeOf A ue ex size i t e = .ok cs → cs ≠ [] → size + nodeSize ex * cs.length ≤ nodeSize ex * 256) ∧
@@ -226,7 +226,7 @@ theorem C11_pitch_node_limit {α} (A : Arith α) (ue ex : Bool) (size : Nat) (i 
       err = .tooLong ∨ err = .tooSteep ∨ (err = .invalidArgument ∧ ue = true ∧ ex = false)) :=
   ⟨fun cs h => (nodeOf_spec A ue ex size i t e cs h).2.2.2.2.2, fun err h => nodeChunks_error A ue ex t _ _ _ i err h⟩
 
-/-- one iteration of `add_pitch_node`, with the range check of fix 87e2b57: the per-frame step
+/-- one iteration of `add_pitch_node`, with the range check of fix f788cbf: the per-frame step
 `d = trunc(((target - counter) / length) * 256)` is tested as computed, before it is narrowed:
 outside `int16_t` the node is an InputError (`tooSteep`) in every form — it used to be converted
 to `int16_t` (undefined behaviour; g++ kept the low 16 bits, `-127>127:1` slid downwards) —
@@ -531,7 +531,7 @@ def decodedEnv (ex : Bool) (cs : List RawChunk) (lp : Int) : PitchEnv :=
     else { chunks := cs.map (toChunk · none), loopTo := some lp.toNat }
 
 /-- the full statement of the PSG and pitch clauses over an arithmetic `A`, for the code as
-repaired (ba9074f, 87e2b57, 54bd60e, 1772c47): every accepted PSG definition meets the written
+repaired (ff36345, f788cbf, 54bd60e, 1772c47): every accepted PSG definition meets the written
 definition; every accepted pitch envelope (compact form, or extended form after the compact pass
 threw `invalid_argument`; loop position at most 255, which `addPitch` checks —
 `C11_pitch_loop_checked`) is read back by the independent reader to nodes that meet the written
